@@ -77,11 +77,19 @@ def temperatures(draw, min_size=1, max_size=6, low_floor=0.5):
 
 
 @st.composite
-def duck_specs(draw, max_nq=8, max_na=10, max_ntv=6, max_nt=6, low_floor=0.5):
+def duck_specs(draw, max_nq=8, max_na=10, max_ntv=6, max_nt=6, low_floor=0.5, long_grids=False):
     nq = draw(st.integers(1, max_nq))
     na = draw(st.integers(1, max_na))
     ntv = draw(st.integers(1, max_ntv))
-    T = draw(temperatures(1, max_nt, low_floor))
+    if long_grids and draw(st.integers(0, 9)) == 0:
+        # long regular temperature grids (the packaged default is NT=16, users run hundreds of temperatures)
+        nq, na, ntv = min(nq, 3), min(na, 3), min(ntv, 3)
+        n = draw(st.sampled_from([65, 70, 129, 150, 257, 300]))
+        t0 = draw(st.sampled_from([0.0, 0.0, 10.0, 300.0]))
+        dt = draw(st.sampled_from([1.0, 10.0, 25.0]))
+        T = [t0 + dt * k for k in range(n)]
+    else:
+        T = draw(temperatures(1, max_nt, low_floor))
     seed = draw(st.integers(0, 2 ** 32 - 1))
     garbage = draw(st.booleans())
     weights = draw(st.lists(st.floats(1e-3, 1e3), min_size=nq, max_size=nq))
